@@ -8,7 +8,7 @@ Open Scope string_scope.
 
 (* the generated operator table has what the round trip needs *)
 Theorem C14_op_table_wf :
-  table_ok binops prefixops max_level primops op_spelling infix_ops = true.
+  table_ok binops prefixops max_level primops op_spelling infix_ops postfix_ops = true.
 Proof. vm_compute. reflexivity. Qed.
 
 (* ---- refuted statements about the pinned printer/parser (one flag each), with their witnesses *)
